@@ -94,6 +94,30 @@ Theorem C34_pinned : forall track new : bytes, track <> [] ->
 Proof. exact pinned_cannot_switch. Qed.
 Print Assumptions C34_pinned.
 
+(* Resolve laws. Resolving twice equals resolving once: if cur parses and its track is not spelled like a risk name (the
+   carve-out is exactly the class of the recorded finding; C34_resolve_idempotent_refuted shows it is needed), then
+   Resolve(cur, Resolve(cur, new)) = Resolve(cur, new). The empty channel is a unit on both sides. *)
+Theorem C34_resolve_idempotent : forall (cur new r : bytes) (ch : chan),
+  parse_verbatim [] cur dash = Some ch -> is_risk (c_track ch) = false ->
+  resolve cur new = Some r -> resolve cur r = Some r.
+Proof. exact resolve_idempotent. Qed.
+Print Assumptions C34_resolve_idempotent.
+
+Theorem C34_resolve_idempotent_refuted : exists (cur new r : bytes) (ch : chan),
+  parse_verbatim [] cur dash = Some ch /\ resolve cur new = Some r /\ resolve cur r <> Some r.
+Proof. exact resolve_idempotent_refuted. Qed.
+Print Assumptions C34_resolve_idempotent_refuted.
+
+Theorem C34_resolve_units : forall s : bytes, resolve s [] = Some s /\ resolve [] s = Some s.
+Proof. exact resolve_units. Qed.
+Print Assumptions C34_resolve_units.
+
+(* under a pinned track (or none) resolving twice equals resolving once, for every track and every request - no guard *)
+Theorem C34_pinned_idempotent : forall track new r : bytes,
+  resolve_pinned track new = POk r -> resolve_pinned track r = POk r.
+Proof. exact pinned_idempotent. Qed.
+Print Assumptions C34_pinned_idempotent.
+
 (* the system-level sentence, at the entry point snapd uses (overlord/snapstate resolveChannel): for the snap the device model
    pins to a track (its kernel with a kernel track, its gadget with a gadget track), every non-empty request - whatever the
    current channel is, also when the request spells the current channel - is refused or resolved to the pinned track
